@@ -436,6 +436,21 @@ func (m *Manager) lock() {
 		}
 	}
 
+	// Zero and drop the cached derived private keys.
+	for _, manager := range m.scopedManagers {
+		var cached []DerivationPath
+		manager.privKeyCache.Range(func(kp DerivationPath,
+			k *cachedKey) bool {
+
+			k.key.Zero()
+			cached = append(cached, kp)
+			return true
+		})
+		for _, kp := range cached {
+			manager.privKeyCache.Delete(kp)
+		}
+	}
+
 	// Remove clear text private keys and scripts from all address entries.
 	for _, manager := range m.scopedManagers {
 		for _, ma := range manager.addrs {
